@@ -37,20 +37,37 @@ INFO = dict(
                "int/negative/slice/fancy indexing, repeat, +, copy, init_from_iterable and the glob importer lists, "
                "to any depth, every element of the lazy result evaluates to the value AND the evaluation log "
                "(own base access, then each mapped function once) of the ordinary-list result (errors included); "
-               "construction consults no callable; k reads evaluate k chains (no memo); iteration, generator prefixes, "
-               "in/index/count/reversed evaluate exactly the stated elements once; no history of operations and reads "
-               "changes what an existing list returns or evaluates.  TRANSLATED rather than transcribed (14 functions, "
-               "source text of the working tree -> Generated/C19Src.lean, equality with the Core model re-proved by "
-               "lake build on every run): the whole __getitem__ dispatch, both map forms and `delayed`, repeat from "
-               "the primitives [x]*n / zip(*) / chain(*), copy, +, both constructors, the suffix filter, the importer "
-               "choice (while / pop loop), the max_assets window / both refusals / generator form of "
-               "_import_glob_lazy_list and the per-frame resolver mapping of import_video; `progSrc` (every operation "
-               "of a program = the translated code) is proved equal to the program model, so the refinement theorems "
-               "speak about the translated source.  The model is also tied to /repo by running the real "
-               "LazyList and the real importers with instrumented callables on random programs and diffing values, "
-               "lengths, error kinds and evaluation logs against the Lean driver, and by decide obligations over the "
-               "argument-dispatch and receiver-write tables regenerated from the live code; an independent "
-               "ordinary-list oracle decides the property on the real code.",
+               "iteration, generator prefixes, in/index/count/reversed evaluate exactly the stated elements once.  "
+               "BY CONSTRUCTION OF THE MODEL (not theorems with content of their own): building a list takes no "
+               "environment of callables at all (so construction cannot evaluate - a fact about the TYPE of "
+               "Prog.lazy / genMap / genInit ...), a read re-evaluates its chain (no memo), operations log nothing and "
+               "every operation allocates a new list object (the frame theorems hrun_frame / src_history_frame are "
+               "theorems of that heap model).  That the CODE shares these model properties is established by: the "
+               "source translation - 15 functions (LazyList.__init__ included, so an eager constructor breaks "
+               "genInit_eq), source text of the working tree -> Generated/C19Src.lean, equality with the Core model "
+               "re-proved by lake build on every run: the whole __getitem__ dispatch, both map forms and `delayed` "
+               "(bound positionally), repeat from the primitives [x]*n / zip(*) / chain(*), copy, +, both "
+               "constructors, the suffix filter, the importer choice (while / pop loop), the max_assets window / both "
+               "refusals / generator form of _import_glob_lazy_list, _import and the per-frame resolver mapping of "
+               "import_video; the translation is VALUE-LEVEL except for one typing discipline: only an object "
+               "created by the running method (Copyable.copy(self), self.copy(), the blank self of __init__) has "
+               "type Fresh and only a Fresh object can be assigned `_callables`, so a method that writes its "
+               "receiver (`new = self`) no longer type-checks; aliasing beyond that (two names for one Python list "
+               "object, writes from outside) is decided by the measured receiver-write table (17 operations, "
+               "regenerated every run) and by the oracle's histories on aliased objects, not by the translated "
+               "obligations; `progSrc` (every operation of a program = the translated code) is proved equal to the "
+               "program model, so the refinement theorems speak about the translated source.  The model is also tied "
+               "to /repo by running the real LazyList and the real importers with instrumented callables on random "
+               "programs and diffing values, lengths, error kinds and evaluation logs against the Lean driver (exact "
+               "logs, i.e. absence of a memo, are a correspondence observation), and by decide obligations over the "
+               "argument-dispatch and receiver-write tables regenerated from the live code (the dispatch is the one "
+               "AFTER fix 19448fa: a regression breaks getitem_dispatch_ok).  An independent ordinary-list oracle "
+               "decides the property on the real code and judges only what the text states: lengths, values, that "
+               "construction evaluates nothing, that a read evaluates at most the element's own dependency chain "
+               "(sub-sequence), that an index an ordinary list refuses is refused (any exception), and that receivers "
+               "read as before; exception kinds, str(), and what map / + do with arguments outside the property's "
+               "grammar (non-callable, callable iterable, generator of callables, non-iterable operand) are recorded, "
+               "not judged.",
     level_note="Trusted: Lean kernel; axioms propext/Classical.choice/Quot.sound; the Python harness and the "
                "driver's parser; the translator (harness/py2lean2.py, py2lean2g.py) and the C19 rule table "
                "(harness/trans_c19.py); CPython list/partial/pathlib semantics are modelled (Core/PyData.lean, "
@@ -67,12 +84,30 @@ INFO = dict(
              "`_possible_extensions_from_filepath` and `_import_object_attach_landmarks` are not translated; the "
              "per-element callable `_import` is translated symbolically (which object flows where: is_file refusal, "
              "importer choice, the two attach guards, list wrapping / unwrapping; path attachment dropped) and "
-             "genImport_thunk shows that the vocabulary word `partial(_import, ...)` denotes what it returns",
+             "genImport_thunk shows that the vocabulary word `partial(_import, ...)` denotes what it returns; the "
+             "dropped path-attachment loop of `_import` ITERATES plain sequences among the built objects (guarded by "
+             "`not isinstance(x, LazyList)`): that this guard keeps imported video lists unevaluated is decided by "
+             "the oracle (video family), not by the translation",
+             "construction silence, no-memo reads, silent operations and fresh result objects are properties the model "
+             "has by construction; the former `rfl` theorems construction_evaluates_nothing / ops_construct_only are "
+             "no longer listed as property theorems",
              "shuffle=True and verbose=True of the importers are covered by the translated _import_glob_lazy_list "
              "(genImportGlob_eq, random.shuffle as a parameter) but not by the correspondence; pickling of lazy lists "
              "is outside the model (not named by the property); LazyLists holding a local closure (after map, or "
              "init_from_iterable without f) cannot be pickled at all - recorded in the evidence notes, not judged"],
-    assumptions=["callables are deterministic functions of their argument (instrumented test callables)"],
+    assumptions=["callables are deterministic functions of their argument (instrumented test callables): total, they do "
+                 "not raise, do not touch any lazy list, and nobody writes `_callables` from outside (the model's Env "
+                 "is a pair of total functions)",
+                 "the Sequence mix-ins (__iter__, __contains__, index, count, __reversed__ of collections.abc) are "
+                 "transcribed by hand in Core/C19Reads.lean and tied by the correspondence, not translated",
+                 "attribute assignment is read value-passing in the translation (see level_text: Fresh typing "
+                 "discipline, write table, oracle histories)",
+                 "importer-built video lists use a logging stand-in for FFMpegVideoReader except in the dedicated "
+                 "family that drives the real reader behind stand-in ffmpeg / ffprobe executables",
+                 "harmless totalisations of the vocabulary: importThunk uses `.getD 0` for a file without importer "
+                 "(excluded by importKind_of_extOk), `partial(g_b, x)` takes `x.toNat`, `genAdd 0 = TypeError` (fuel, "
+                 "genAdd_eq holds for every fuel >= 2), `LazyList(<one callable>)` is a TypeError in the model where "
+                 "the code builds a broken object (unreachable: getitem_wrap_never_elem)"],
     design_ref="DESIGN.md section 6, C19")
 IMPORTS = ["MenpoModel.Props.C19", "MenpoModel.GenProps.C19", "MenpoModel.GenProps.C19Src",
            "MenpoModel.GenProps.C19SrcRefine"]
@@ -80,7 +115,6 @@ THEOREMS = [
     "MenpoModel.LazyList.lazy_refines_list",
     "MenpoModel.LazyList.lazy_length_eq",
     "MenpoModel.LazyList.getInt_value",
-    "MenpoModel.LazyList.construction_evaluates_nothing",
     "MenpoModel.LazyList.evalLog_chain",
     "MenpoModel.LazyList.read_log_length",
     "MenpoModel.LazyList.map_read_log",
@@ -173,7 +207,6 @@ THEOREMS = [
     "MenpoModel.LazyList.mapFull_list",
     "MenpoModel.LazyList.mapFull_dispatch",
     "MenpoModel.LazyList.addFull_dispatch",
-    "MenpoModel.LazyList.ops_construct_only",
     # Props/C19PyIO.lean
     "MenpoModel.LazyList.foldl_append_filter",
     "MenpoModel.LazyList.whileG_findSome_eq",
@@ -794,6 +827,14 @@ def gen_prog(rng, max_depth, nb):
     return grow(rng.randint(2, max_depth))
 
 
+def subseq(lg, elg):
+    """the property bounds what a read evaluates FROM ABOVE ("evaluates only what that element depends on"): the oracle
+    accepts any sub-sequence of the dependency chain (an implementation that remembers an evaluated element satisfies
+    the text); exact equality of the logs is still compared with the Lean model (correspondence, not oracle)"""
+    it = iter(elg)
+    return all(any(x == y for y in it) for x in lg)
+
+
 def fmt_log(lg):
     return ",".join(lg) if lg else "-"
 
@@ -862,7 +903,7 @@ def run_program(ctx, p, reads_rng, extra=None):
         if j < len(expect):
             ev, elg = expect[j]
             ctx.check(v == ev, site, "value", "element %d is %r, ordinary list gives %r" % (j, v, ev), dict(rp, index=j))
-            ctx.check(lg == elg, site, "read-log",
+            ctx.check(subseq(lg, elg), site, "read-log",
                       "reading element %d evaluated %r, its dependencies are %r" % (j, lg, elg), dict(rp, index=j))
     if len(expect) != n:
         return " ".join(out)
@@ -894,7 +935,7 @@ def run_program(ctx, p, reads_rng, extra=None):
         res.append(str(v) if ok else "E")
         ctx.check(ok == eok and (not ok or v == ev), site, "int-index",
                   "ll[%d]: %s vs ordinary list %s" % (i, v if ok else "IndexError", ev if eok else "IndexError"), dict(rp, index=i))
-    ctx.check(seq_log == exp_log, site, "reads-log",
+    ctx.check(subseq(seq_log, exp_log), site, "reads-log",
               "reads %r evaluated %r; the dependency chains of those elements, once per read, are %r" % (idxs, seq_log[:12], exp_log[:12]),
               dict(rp, reads=idxs))
     if extra is not None:
@@ -905,7 +946,7 @@ def run_program(ctx, p, reads_rng, extra=None):
     it_log = w.take()
     all_log = [x for e in expect for x in e[1]]
     ctx.check(it == vals, site, "iteration", "list(ll) differs from the ordinary list", rp)
-    ctx.check(it_log == all_log, site, "iteration-log",
+    ctx.check(subseq(it_log, all_log), site, "iteration-log",
               "iterating evaluated %r, every element once in order is %r" % (it_log[:12], all_log[:12]), rp)
     if extra is not None:
         extra.append(("iter " + tk, "ok %d%s # %s" % (len(it), "".join(" %s" % v for v in it), fmt_log(it_log)), rp))
@@ -922,7 +963,7 @@ def run_program(ctx, p, reads_rng, extra=None):
                 break
         lg = w.take()
         ek = min(k, n)
-        ctx.check(got == vals[:ek] and lg == [x for e in expect[:ek] for x in e[1]], site, "generator-prefix",
+        ctx.check(got == vals[:ek] and subseq(lg, [x for e in expect[:ek] for x in e[1]]), site, "generator-prefix",
                   "consuming %d items gave %r and evaluated %r" % (k, got, lg[:12]), dict(rp, consumed=k))
         obs_s, req = "ok %d%s # %s" % (len(got), "".join(" %s" % v for v in got), fmt_log(lg)), "prefix %d %s" % (k, tk)
     elif mode in ("contains", "index", "count"):
@@ -954,7 +995,7 @@ def run_program(ctx, p, reads_rng, extra=None):
     elif mode == "reversed":
         got = [safe_obs(x) for x in reversed(ll)]
         lg = w.take()
-        ctx.check(got == vals[::-1] and lg == [x for e in expect[::-1] for x in e[1]], site, "sequence-reversed",
+        ctx.check(got == vals[::-1] and subseq(lg, [x for e in expect[::-1] for x in e[1]]), site, "sequence-reversed",
                   "reversed(ll) gave %r and evaluated %r" % (got, lg[:12]), rp)
         obs_s, req = "ok%s # %s" % ("".join(" %s" % v for v in got), fmt_log(lg)), "reversed " + tk
     else:
@@ -995,7 +1036,7 @@ def run_program(ctx, p, reads_rng, extra=None):
         except Exception:
             pass
         lg = w.take()
-        ctx.check(rv == [e[0] for e in sexp] and lg == [x for e in sexp for x in e[1]], site, "receiver-changed",
+        ctx.check(rv == [e[0] for e in sexp] and subseq(lg, [x for e in sexp for x in e[1]]), site, "receiver-changed",
                   "a list an operation was applied to no longer behaves as before", dict(rp, receiver=toks(sub)))
     return " ".join(out)
 
@@ -1064,14 +1105,14 @@ def generator_case(ctx, rng, lines, pending):
             break
     lg = w.take()
     ek = min(k, len(expect))
-    ctx.check(got == [e[0] for e in expect[:ek]] and lg == [x for e in expect[:ek] for x in e[1]], site, "generator-prefix",
+    ctx.check(got == [e[0] for e in expect[:ek]] and subseq(lg, [x for e in expect[:ek] for x in e[1]]), site, "generator-prefix",
               "consuming %d items gave %r and evaluated %r" % (k, got, lg[:12]), dict(rp, consumed=k))
     cid = "g%d" % len(lines)
     lines.append("%s prefix %d %s" % (cid, k, " ".join(toks(p))))
     pending[cid] = ("ok %d%s # %s" % (len(got), "".join(" %s" % v for v in got), fmt_log(lg)), dict(rp, consumed=k), "prefix")
     rest = [safe_obs(x) for x in g]
     lg = w.take()
-    ctx.check(rest == [e[0] for e in expect[ek:]] and lg == [x for e in expect[ek:] for x in e[1]], site, "generator-rest",
+    ctx.check(rest == [e[0] for e in expect[ek:]] and subseq(lg, [x for e in expect[ek:] for x in e[1]]), site, "generator-rest",
               "the rest of the generator gave %r and evaluated %r" % (rest, lg[:12]), dict(rp, consumed=k))
 
 
@@ -1106,9 +1147,16 @@ def noncallable_case(ctx, rng, lines, pending):
     chain, p = [], sub
     BAD = 99
     pos = rng.randint(0, 2)
+    refused_at_map = False
     for k in range(3):
         if k == pos:
-            ll = ll.map(rng.choice(NONCALLABLE))
+            try:
+                ll = ll.map(rng.choice(NONCALLABLE))
+            except Exception:      # noqa: BLE001
+                # the property's `map` takes "a single callable or one per element": refusing anything else at map time
+                # satisfies the text as well as accepting it lazily (what menpo does) - provided nothing was evaluated
+                refused_at_map = True
+                break
             chain.append(BAD)
             p = ("M", BAD, p)
         elif rng.random() < 0.7:
@@ -1119,6 +1167,10 @@ def noncallable_case(ctx, rng, lines, pending):
     rp = {"program": toks(p), "program_tree": repr(p), "non_callable_function_id": BAD}
     ctx.case(("noncallable",) + tuple(toks(p)), nontrivial=True)
     ctx.check(not w.take(), site, "construction-evaluated", "mapping a non-callable evaluated something", rp)
+    if refused_at_map:
+        ctx.count("map-noncallable:refused-at-map-time")
+        return
+    ctx.count("map-noncallable:accepted-lazily")
     i = rng.randrange(len(expect))
     v, lg = expect[i]
     for f in chain:
@@ -1134,8 +1186,11 @@ def noncallable_case(ctx, rng, lines, pending):
     except Exception as e:      # noqa: BLE001
         got = "err other:" + type(e).__name__
     glog = w.take()
-    ctx.check(got == "errx type" and glog == lg, site, "footprint",
-              "reading through a non-callable gave %r and evaluated %r (expected TypeError after %r)" % (got, glog, lg), dict(rp, index=i))
+    # judged: the read cannot produce a value (there is no function to apply) and evaluates at most the element's own
+    # chain below the non-callable; the exception kind and the exact footprint are compared with the model only
+    ctx.check(not got.startswith("ok") and subseq(glog, lg), site, "footprint",
+              "reading through a non-callable gave %r and evaluated %r (the element's chain below it is %r)" % (got, glog, lg),
+              dict(rp, index=i))
     try:
         vals = [safe_obs(nodes[-1][1][k]) for k in range(len(expect))]
     except Exception as e:      # noqa: BLE001
@@ -1159,28 +1214,39 @@ def special_cases(ctx):
     class CallIter(list):
         def __call__(self, x):
             return x
-    for what, f, exc in [("ambiguous callable-iterable to map", lambda: ll.map(CallIter([1, 2, 3])), ValueError),
-                         ("non-iterable +", lambda: ll + 5, ValueError),
-                         ("generator of callables to map (no len)", lambda: ll.map(w.fn(k) for k in range(3)), TypeError),
-                         ("float index", lambda: ll[1.5], TypeError),
-                         ("None index", lambda: ll[None], TypeError),
-                         ("slice step 0", lambda: ll[::0], ValueError),
-                         ("slice with float bound", lambda: ll[1.0:], TypeError)]:
+    # Judged: only what the property text states.  An index an ordinary list refuses must be refused (by ANY exception:
+    # the text names no exception kinds), nothing may be evaluated and the list must read as before.  Which exception is
+    # raised, and what `map` / `+` do with arguments outside the property's grammar (a callable iterable, a generator of
+    # callables, a non-iterable right operand), is OBSERVED (evidence notes; the exception kinds of the argument
+    # catalogue are tied to the model by the regenerated dispatch tables), never an oracle failure.
+    observed = {}
+    for what, f, exc, judged in [
+            ("ambiguous callable-iterable to map", lambda: ll.map(CallIter([1, 2, 3])), ValueError, False),
+            ("non-iterable +", lambda: ll + 5, ValueError, False),
+            ("generator of callables to map (no len)", lambda: ll.map(w.fn(k) for k in range(3)), TypeError, False),
+            ("float index", lambda: ll[1.5], TypeError, True),
+            ("None index", lambda: ll[None], TypeError, True),
+            ("slice step 0", lambda: ll[::0], ValueError, True),
+            ("slice with float bound", lambda: ll[1.0:], TypeError, True)]:
         try:
             f()
-            ok = False
-        except exc:
-            ok = True
-        except Exception:
-            ok = False
+            got = "accepted"
+        except Exception as e:      # noqa: BLE001
+            got = type(e).__name__
+        observed[what] = got
         ctx.case(("special", what), nontrivial=True)
-        ctx.check(ok, site, "error-kind", what + " is not refused with " + exc.__name__, {"case": what})
-    ctx.check(not w.take(), site, "construction-evaluated", "refused operations evaluated something", {})
+        ctx.count("special:%s:%s" % (what, "as-modelled" if got == exc.__name__ else got))
+        if judged:
+            ctx.check(got != "accepted", site, "not-refused", what + ": an ordinary list refuses it, the lazy list accepts it",
+                      {"case": what})
+    ctx.notes["special_arguments_observed"] = observed
+    ctx.check(not w.take(), site, "construction-evaluated", "refused / special operations evaluated something", {})
     ctx.check([ll[k] for k in range(3)] == [base_val(0, k) for k in range(3)], site, "receiver-changed",
-              "refused operations changed the list", {})
+              "refused / special operations changed the list", {})
     w.take()
-    ctx.check(str(ll) == "LazyList containing 3 items" and bool(ll) and not w.take(), site, "construction-evaluated",
-              "str()/bool() of a lazy list evaluated elements or misreport the length", {})
+    ctx.notes["str_of_lazy_list"] = str(ll)
+    ctx.check(len(ll) == 3 and bool(ll) and not w.take(), site, "construction-evaluated",
+              "len() / bool() / str() of a lazy list evaluated elements or misreport the length", {})
     # init_from_iterable with and without f
     l2 = LazyList.init_from_iterable([5, 6, 7], f=w.fn(1))
     ctx.check(not w.take(), site, "construction-evaluated", "init_from_iterable evaluated", {})
@@ -1354,14 +1420,14 @@ def heap_history(ctx, rng, lines, pending):
                     except IndexError:
                         (ev, elg), eok = (None, []), False
                     lg = w.take()
-                    ctx.check(ok == eok and v == ev and lg == elg, site, "read-in-history",
+                    ctx.check(ok == eok and v == ev and subseq(lg, elg), site, "read-in-history",
                               "objs[%d][%d] gave %r / evaluated %r, expected %r / %r" % (c, i, v, lg, ev, elg), {"ops": list(ops_tok)})
                     exp_log += lg
                 else:
                     ops_tok.append("it %d" % c)
                     got = [safe_obs(x) for x in objs[c]]
                     lg = w.take()
-                    ctx.check(got == [e[0] for e in refs[c]] and lg == [x for e in refs[c] for x in e[1]], site, "iterate-in-history",
+                    ctx.check(got == [e[0] for e in refs[c]] and subseq(lg, [x for e in refs[c] for x in e[1]]), site, "iterate-in-history",
                               "list(objs[%d]) gave %r / evaluated %r" % (c, got, lg[:10]), {"ops": list(ops_tok)})
                     exp_log += lg
         except Exception as e:      # noqa: BLE001
@@ -1376,7 +1442,7 @@ def heap_history(ctx, rng, lines, pending):
             ctx.fail(site, "read-raises", "reading list object %d after the history raised %s" % (k, type(e).__name__), rp)
             return
         lg = w.take()
-        ctx.check(vals == [e[0] for e in ref] and lg == [x for e in ref for x in e[1]], site, "receiver-changed",
+        ctx.check(vals == [e[0] for e in ref] and subseq(lg, [x for e in ref for x in e[1]]), site, "receiver-changed",
                   "list object %d no longer holds / evaluates what the operation that created it returned: %r vs %r" % (
                       k, vals, [e[0] for e in ref]), rp)
         cells.append(" | %d%s" % (len(vals), "".join(" %s" % v for v in vals)))
@@ -1629,8 +1695,8 @@ def video_reader_cases(ctx, n_cases):
 
 
 def zero_d_verdict(model_coded, model_repaired, obs):
-    """the 0-dimensional index: the implementation must be one of the two modelled dispatches"""
-    return obs == model_repaired or obs == model_coded
+    """the 0-dimensional index: the implementation must be the dispatch of the tree (repaired, fix 19448fa)"""
+    return obs == model_repaired
 
 
 def run(ctx):
@@ -1712,10 +1778,12 @@ def _run(ctx):
             mc, mr = model[eid + "c"], model[eid + "p"]
             if o == mr:
                 zero_d["repaired"] += 1
-            elif o == mc:
-                zero_d["coded"] += 1
             else:
-                ctx.mismatch("get0d", "model (coded) %r / (repaired) %r vs implementation %r" % (mc[:200], mr[:200], o[:200]), rp)
+                # the tree's dispatch is the repaired one (fix 19448fa): the pre-fix behaviour is a broken correspondence
+                if o == mc:
+                    zero_d["coded"] += 1
+                ctx.mismatch("get0d", "model (dispatch of the tree) %r vs implementation %r (pre-fix dispatch: %r)" % (
+                    mr[:200], o[:200], mc[:200]), rp)
         elif model[eid] != o:
             ctx.mismatch(req.split()[0], "model %r vs implementation %r" % (model[eid][:300], o[:300]), rp)
     ctx.notes["zero_dimensional_index_dispatch_seen"] = zero_d
